@@ -159,7 +159,7 @@ func program(r *mc.Run, interleaved bool, warm int, cat []mut) func(x *mc.X) {
 						return
 					}
 					var sock *vnet.UDPConn
-					for _, sk := range w.Net.Socks {
+					for _, sk := range w.Net.Open() {
 						if !sk.Closed() && sk.Reading.Load() {
 							sock = sk
 						}
